@@ -5,7 +5,7 @@
 package client
 
 // Every function under contract in this package also serves the properties that depend on the whole package.
-//@ package-props C01 C18 C19
+//@ package-props C01 C18 C19 C12
 
 // delivered: number of notifications handed to the application's handler;
 // lastWasConnected: the last one was the synthetic Connected.
